@@ -22,6 +22,15 @@ def both16(v):
     return struct.pack('<H', v & 0xffff) + struct.pack('>H', v & 0xffff)
 
 
+def _crc16(data):
+    crc = 0
+    for byte in data:
+        crc ^= byte << 8
+        for _ in range(8):
+            crc = ((crc << 1) ^ 0x1021) & 0xffff if crc & 0x8000 else (crc << 1) & 0xffff
+    return crc
+
+
 def corruptions(img, rd, rng, per_image):
     """structured corruptions: (label, spec dict)"""
     n = len(img)
@@ -113,15 +122,81 @@ def corruptions(img, rd, rng, per_image):
             for fo in (0, 2, 4, 8, 10, 12, 16, 20, 24, 56, 168, 172):
                 if rng.random() < 0.25:
                     out.append(('udf-field:' + kind, {'patch': [[o + fo, (rng.choice(byval) * rng.choice([1, 2, 4])).hex()]]}))
+    # UDF descriptors mutated WITH their tag re-sealed (CRC and checksum recomputed), so that the parser gets past the tag checks and
+    # meets the inconsistent counts / lengths inside (numbers of partitions, map table lengths, allocation descriptor lengths ...)
+    if rd is not None and rd.udf is not None:
+        tagged = [(o, ln) for (o, ln, kind, keys) in segs if kind.startswith('udf') and o + 16 <= n
+                  and struct.unpack_from('<H', img, o)[0] in (1, 2, 4, 5, 6, 7, 8, 9, 256, 257, 261, 266)]
+        rng.shuffle(tagged)
+        for (o, ln) in tagged[:12]:
+            crclen = struct.unpack_from('<H', img, o + 10)[0]
+            if crclen == 0 or o + 16 + crclen > n:
+                continue
+            for _ in range(3):
+                body = bytearray(img[o:o + 16 + crclen])
+                fo = rng.choice([16, 20, 24, 28, 32, 56, 64, 72, 80, 88, 168, 172, 176, 180, 184, 188, 192, 196, 200]
+                                + [rng.randrange(16, 16 + crclen - 3)])
+                if fo + 4 > len(body):
+                    continue
+                val = rng.choice([0, 1, 54, 55, 61, 62, 127, 255, 256, 0xffff, 0x10000, 0x7fffffff, 0xffffffff])
+                struct.pack_into('<L', body, fo, val)
+                struct.pack_into('<H', body, 8, _crc16(bytes(body[16:16 + crclen])))
+                body[4] = 0
+                body[4] = sum(body[:16]) & 0xff
+                out.append(('udf-resealed', {'patch': [[o, bytes(body).hex()]]}))
+    # GPT headers of hybrid images: counts, strides and array locations (both copies)
+    if rd is not None and rd.hybrid and isinstance(rd.hybrid, dict) and rd.hybrid.get('gpt'):
+        for base in (512, n - 512):
+            if bytes(img[base:base + 8]) != b'EFI PART':
+                continue
+            for fo, fmt, vals in ((80, '<L', (0, 1, 129, 4096, 300000, 0xffffffff)), (84, '<L', (0, 1, 127, 129, 4096, 0xffffffff)),
+                                  (72, '<Q', (0, 1, n // 512, n // 512 + 5, 1 << 40, (1 << 64) - 1)), (12, '<L', (0, 91, 93, 512, 0xffffffff)),
+                                  (24, '<Q', (0, n // 512 + 9, (1 << 64) - 1)), (32, '<Q', (0, n // 512 + 9, (1 << 64) - 1))):
+                for v in vals:
+                    out.append(('gpt-field', {'patch': [[base + fo, struct.pack(fmt, v).hex()]]}))
+            out.append(('gpt-field', {'patch': [[base + 80, struct.pack('<LL', 0xffffffff, 0).hex()]]}))
+            out.append(('gpt-field', {'patch': [[base + 80, struct.pack('<LL', 300000, 0).hex()]]}))
+    # directed cases that are always kept: counts / strides / lengths that drive loops and allocations
+    prio = []
+    if rd is not None and rd.hybrid and isinstance(rd.hybrid, dict) and rd.hybrid.get('gpt'):
+        for base in (512, n - 512):
+            if bytes(img[base:base + 8]) == b'EFI PART':
+                prio.append(('gpt-count-stride', {'patch': [[base + 80, struct.pack('<LL', 0xffffffff, 0).hex()]]}))
+                prio.append(('gpt-count-stride', {'patch': [[base + 80, struct.pack('<LL', 0xffffffff, 128).hex()]]}))
+                prio.append(('gpt-count-stride', {'patch': [[base + 80, struct.pack('<LL', 300000, 0).hex()]]}))
+    if rd is not None and rd.udf is not None:
+        want = {9: [(72, (55, 54, 108, 0xffffffff)), (76, (0xffffffff, 500))], 6: [(264, (72, 73, 0xffffffff)), (268, (13, 0xffffffff))],
+                261: [(168, (0xffffffff, 2000)), (172, (0xffffffff, 2000, 7))], 257: [(36, (0xffff, 2000))], 7: [(20, (62, 0xffffffff))]}
+        done = set()
+        for (o, ln, kind, keys) in segs:
+            if not kind.startswith('udf') or o + 16 > n:
+                continue
+            ident = struct.unpack_from('<H', img, o)[0]
+            if ident not in want or ident in done:
+                continue
+            crclen = struct.unpack_from('<H', img, o + 10)[0]
+            if crclen == 0 or o + 16 + crclen > n:
+                continue
+            done.add(ident)
+            for fo, vals in want[ident]:
+                for val in vals:
+                    body = bytearray(img[o:o + 16 + crclen])
+                    if fo + 4 > len(body):
+                        continue
+                    struct.pack_into('<L' if ident != 257 else '<H', body, fo, val if ident != 257 else val & 0xffff)
+                    struct.pack_into('<H', body, 8, _crc16(bytes(body[16:16 + crclen])))
+                    body[4] = 0
+                    body[4] = sum(body[:16]) & 0xff
+                    prio.append(('udf-resealed-count:%d' % ident, {'patch': [[o, bytes(body).hex()]]}))
     rng.shuffle(out)
     # keep every class represented
-    seen, kept = {}, []
+    seen, kept = {}, list(prio)
     for lab, sp in out:
         c = lab.split(':')[0]
         if seen.get(c, 0) < max(3, per_image // 12):
             seen[c] = seen.get(c, 0) + 1
             kept.append((lab, sp))
-    return kept[:per_image]
+    return kept[:per_image + len(prio)]
 
 
 def walk_cases(img, rd, rng):
@@ -175,6 +250,20 @@ def base_images(ctx, n):
             for k in range(3):
                 sizes[k + 1] = 10
                 ops.append({'k': 'add_fp', 'blob': k + 1, 'size': 10, 'iso': rng.choice(paths) + '/F%d.;1' % k})
+        elif i % 5 == 2:
+            # EFI / Mac hybrid image (GPT structures in the system area and at the end)
+            from harness.props import c12
+            try:
+                himg, hiso = c12.build_hybrid({} if rng.random() < 0.6 else {'rock_ridge': '1.09'}, rng.choice([{'efi': True}, {'mac': True}]),
+                                              [(rng.choice([100, 3000, 70000]), rng.random() < 0.5) for _ in range(rng.randrange(0, 3))])
+                hiso.close()
+            except Exception:
+                continue
+            hb = sysimg.Built()
+            hb.img = himg
+            sysimg.decode(hb)
+            imgs.append((cfg, [{'k': 'hybrid'}], hb.img, hb.rd))
+            continue
         elif i % 3 == 0:
             ops, sizes = c11.boot_history(rng, cfg)
             for op in ops:
